@@ -50,9 +50,12 @@ def runBatch (f : Facts) (previous : Option BM) (slotBase lastheight len : Nat)
 def slotHeights (maps : List (Option BM)) : List (Option Nat) := maps.map (fun e => e.map (·.height))
 
 /-- `Build` when the remote's last proof `last` is newer than the local state -/
-def build (f : Facts) (loc : Option BM) (last : BM) (resp : Nat → Option BM) : Outcome :=
+def build (f : Facts) (loc : Option BM) (last : BM) (resp : Nat → Option BM) (lastBlockNewer : Bool := false) : Outcome :=
   let frm := match loc with | some p => p.height + 1 | none => 0
-  if last.height < frm then .ok []      -- nothing new
+  if last.height < frm then
+    -- the remote's last proof is not above the local suffrage height: nothing new, unless its *block*
+    -- is newer than the local state's (then `buildBatch` runs with an empty range and `BatchWork` fails)
+    (if lastBlockNewer then .err else .ok [])
   else
     match plan (last.height + 1 - frm) f.limit with
     | none => .err
